@@ -1,6 +1,6 @@
 ------------------------------ MODULE Universe ------------------------------
 (* Bounded universes of canonical enum values shared by the model-checking modules. *)
-EXTENDS Values, Vocab
+EXTENDS Values, Vocab, SequencesExt
 
 IV(n) == [k |-> "VariableIndependent", n |-> n]
 DV(n) == [k |-> "VariableDependent", n |-> n]
@@ -76,6 +76,12 @@ EnvelopeQuickSet(z) == LET S == Sentences(Junctions, Puncts, StampsFull, TruthsQ
                  {AsSentence(s) : s \in S} \cup {AsTask(b, s) : b \in BudgetsQuick, s \in S}
 EnvelopeFullSet(z) == LET S == Sentences(Junctions, Puncts, StampsFull, TruthsFull) IN
                 {AsSentence(s) : s \in S} \cup {AsTask(b, s) : b \in BudgetsFull, s \in S}
+
+\* k-th of K parts of a set (deterministic: SetToSeq follows TLC's value order); lets the seeds of an MC module
+\* share one universe between the workers
+Part(S, k, K) == LET q == SetToSeq(S) IN {q[i] : i \in {j \in 1..Len(q) : j % K = k % K}}
+\* a seeded sample: every m-th element starting at offset (seed % m)
+Sample(S, m, seed) == LET q == SetToSeq(S) IN {q[i] : i \in {j \in 1..Len(q) : j % m = seed % m}}
 
 \* ---------------------------------------------------------------- C17: start terms (every constructor, several shapes)
 C17Start == AtomsU0 \cup {RepOf(kd) : kd \in CompoundKinds \cup StatementKinds}
